@@ -57,6 +57,26 @@ Semantics of the translation (rs2lean)
   `u64OfInt` (wrap-around), `u64 as T` is `cast .T (u64ToInt x)`; `trailing_zeros` is `u64Tz` (64 for 0).
   All other integer types stay range-checked `Int`s.  `slice.get_unchecked(i)` (in `unsafe` code) is translated as a
   CHECKED access: `none` = out of bounds = undefined behaviour, which the theorems exclude.
+* STRUCT VALUES: a struct listed as `Struct` in the translator's table (`Move`, `PlayerState`) is regenerated as a Lean
+  structure (arrays / slices of primitives are `List`s, indexing is bounds-checked like the Rust: `vecIdx`/`vecSet`,
+  `none` = panic).  `x.f` is the projection, `x.f = e` / `x.f op= e` on a mutable local rebinds `x := { x with f := .. }`,
+  `x.m(args)` calls the translated `m` with the fields of `x` it reads.  Tuples are Lean tuples (`let (a, b) = e`).
+* `&mut` AND ALIASING (only these patterns; anything else is an error):
+  - a method whose body is `if C { (&mut self.a, &mut self.b) } else { (&mut self.b, &mut self.a) }`
+    (`get_active_and_passive_mut`) produces no definition; `let (x, y) = self.m();` at the top level of a caller
+    evaluates `C` ONCE into `borrow_cond`, copies the two fields into the mutable locals `x`, `y`, and the result tuple of
+    the caller writes them back (`if borrow_cond then x else y`, ..).  While the borrow lives a direct access to
+    `self.a` / `self.b` is rejected.
+  - a method whose body is `&mut self.field[INDEX]` (`pawns_ref`, `occupancy_ref(piece)`) becomes the definition
+    `m_index` of the index; `*x.m(args) op= e` is `let i ← m_index args; let old ← vecIdx x.field i;
+    x := { x with field := ← vecSet x.field i (old op e) }`.
+  - a parameter `p: &mut S` of a regenerated struct is a mutable variable whose final value is (part of) the result;
+    `f(x, ..);` as a statement of its own rebinds `x`.
+* OPAQUE FUNCTIONS: calls listed as opaque whose receiver is a global (`ROOK_MAGICS.get_attacks(sq, occ)`) or another
+  type (`Zobrist::piece_square_hash(p, sq, c)`, the constant `Zobrist::BLACK_TO_MOVE_HASH`) become FUNCTION (value)
+  parameters applied to the translated arguments; callers of such a function get the same parameters.
+* `match` on an integer with constant patterns (`C1 => ..`) is a chain of equality tests; `panic!()` as the value of an
+  arm is `none`.  `unsafe { e }` is `e` (every operation inside must still be in the mapping table).
 * Enums used by the functions are regenerated from the Rust `enum` definition as Lean inductives.
 * Anything else makes rs2lean stop with an error naming file, line, function and construct.  It never guesses.
 -/
